@@ -34,6 +34,7 @@ let () = Reg.register "c27.linediff" (fun inp out ->
     let equal = (a = b) in
     let verdict =
       (match out with
+       | A "panic" -> "bad:linediff-panics"
        | A "none" -> if equal then "ok" else "bad:empty-diff-for-different-texts"
        | L [A "some"; hs] ->
          if equal then "bad:non-empty-diff-for-equal-texts" else begin
